@@ -394,3 +394,21 @@ Proof.
     + apply Forall_forall. intros w Hw. destruct (W w Hw) as (_ & W2 & _). rewrite W2. constructor.
 Qed.
 End E2E.
+
+(* ---------- the correspondence check's boolean reflection on the model's own output ---------- *)
+Section ModelOk.
+Variable sortf : list keyed -> outcome (list keyed).
+Hypothesis sortf_perm : forall l, exists l', sortf l = Ok l' /\ Permutation l' l.
+
+Theorem plans_ok_on_model info origin base mf req order fuel plans :
+  get_cpu_plans_g sortf info origin base mf req order fuel = Ok plans ->
+  wf_maps info -> NoDup order -> ~ In EmptyString order -> 0 < base ->
+  0 <= rq_mem_req req -> 0 <= nr_mem (get_available_nofloat info) ->
+  c04_plans_ok info (rq_mem_req req) plans = true.
+Proof.
+  intros H Wf Nd Hne Hb Hm Hfree.
+  pose proof (plans_fit sortf sortf_perm _ _ _ _ _ _ _ _ H Wf Nd Hne Hb Hm Hfree) as F. cbv zeta in F.
+  apply fits_ok; auto.
+  destruct F as (A & B & C & P). unfold fits; cbv zeta. repeat split; auto; apply (B tp H0 H1).
+Qed.
+End ModelOk.
